@@ -260,3 +260,15 @@ def require_returns_table(ck: Check, rule: str, summ: Summary, spec: Spec, table
     ck.violated(rule, construct, "%s — the function's return table is {%s}" % (
         what, "; ".join("%s -> %s" % (show(c), show(v)) for c, v in got)), fi.loc)
     return False
+
+
+def disj_atoms(t: Term) -> List[Term]:
+    """atomic comparisons of a condition (through and / or)"""
+    out: List[Term] = []
+    for c in conjuncts(t):
+        for d in (c[1] if c[0] == "or" else [c]):
+            if d[0] == "and":
+                out.extend(disj_atoms(d))
+            else:
+                out.append(d)
+    return out
